@@ -358,8 +358,8 @@ def gen_call(rng, k):
         for key in keys:
             cont = 1 if rng.random() < 0.6 else 2
             a, b = lit(rng, positive=(key == 'lin_bounds')), lit(rng, positive=(key == 'lin_bounds'))
-            if float(a) == float(b):
-                b = a + '1'
+            while float(a) == float(b):
+                b = lit(rng, positive=(key == 'lin_bounds'))
             args.append((key, cont, [a, b]))
     else:
         keys = [x for x in KWS[cls] if rng.random() < 0.6]
@@ -579,7 +579,7 @@ def malformed(ctx):
         rec('loguniform-lin<=0', lambda: LogUniform(lin_bounds=[-abs(a), 1.0]) and 'built')
     for text in ['Uniform(1,2)', 'LogUniform(-1,2)', ' Uniform(bounds=(1,2))', 'Uniform(bounds=(1,2)', 'Uniform(bounds=(1,2,3))',
                  'Uniform(bounds=(1_0,2))', 'Uniform(bounds=(0x10,2))', 'UniForm(bounds=(1,2))', 'Uniform(bound=(1,2))',
-                 'Uniform(bounds=1)', 'Gaussian(mean=(1,2))', 'Uniform', 'Uniform(bounds=(1,2));x', '', 'Uniform(bounds=(1e,2))']:
+                 'Uniform(bounds=1)', 'Gaussian(mean=(1,2))', 'Uniform(bounds=(01,2))', 'Uniform(bounds=(1.2.3,2))', 'Uniform', 'Uniform(bounds=(1,2));x', '', 'Uniform(bounds=(1e,2))']:
         def f():
             p = create_prior(text)
             return type(p).__name__ + p.params().replace(' ', '')
